@@ -230,8 +230,8 @@ func c16FreshKey(alg string) (*fixtures.Key, error) {
 
 func c16RoundtripSub() *engine.Sub {
 	return &engine.Sub{
-		Name: "key-did-roundtrip",
-		Rule: "every fixture key (16 keys, 7 algorithm/size classes) and one key freshly produced by each did.Generate* function: FromPubKey -> String -> Parse -> equal DID -> PubKey -> Equals(original); FromPrivKey agrees; the printed string equals the independently computed did:key of the key; DIDs of two keys are equal iff the keys are (all ordered pairs); non-trivial = all",
+		Name:  "key-did-roundtrip",
+		Rule:  "every fixture key (16 keys, 7 algorithm/size classes) and one key freshly produced by each did.Generate* function: FromPubKey -> String -> Parse -> equal DID -> PubKey -> Equals(original); FromPrivKey agrees; the printed string equals the independently computed did:key of the key; DIDs of two keys are equal iff the keys are (all ordered pairs); non-trivial = all",
 		Bound: func(string) string { return "16 fixture keys + 6 generated keys; 22x22 pairs" },
 		Gen: func(tier string, emit func(any) bool) {
 			for _, k := range fixtures.All() {
@@ -318,10 +318,10 @@ func c16RoundtripSub() *engine.Sub {
 
 func c16AltSub() *engine.Sub {
 	return &engine.Sub{
-		Name: "alternative-encodings",
+		Name:   "alternative-encodings",
 		Repeat: true,
-		Rule: "for every fixture key, every alternative encoding of its key material under its multicodec (uncompressed / hybrid / other-parity points, x>=p, off-curve x, infinity, truncated/extended/empty/constant bodies, RSA DER variants, PKIX, odd exponents, non-minimal multicodec varint): Parse + PubKey never panic, and if both succeed the identifier is the canonical one of the extracted key (FromPubKey(pk).String() == s); non-trivial = Parse accepts",
-		Bound: func(string) string { return "16 keys x 8..14 encodings" },
+		Rule:   "for every fixture key, every alternative encoding of its key material under its multicodec (uncompressed / hybrid / other-parity points, x>=p, off-curve x, infinity, truncated/extended/empty/constant bodies, RSA DER variants, PKIX, odd exponents, non-minimal multicodec varint): Parse + PubKey never panic, and if both succeed the identifier is the canonical one of the extracted key (FromPubKey(pk).String() == s); non-trivial = Parse accepts",
+		Bound:  func(string) string { return "16 keys x 8..14 encodings" },
 		Gen: func(tier string, emit func(any) bool) {
 			for _, k := range fixtures.All() {
 				for _, a := range altEncodings(k) {
@@ -404,10 +404,12 @@ const b58Alphabet = "123456789ABCDEFGHJKLMNPQRSTUVWXYZabcdefghijkmnopqrstuvwxyz"
 func c16StringsSub() *engine.Sub {
 	supported := map[uint64]bool{0xed: true, 0xe7: true, 0x1200: true, 0x1201: true, 0x1202: true, 0x1205: true}
 	return &engine.Sub{
-		Name: "parser-inputs",
+		Name:   "parser-inputs",
 		Repeat: true,
-		Rule: "strings offered to did.Parse: every base58 string up to the length bound after 'did:key:z'; every 1- and 2-byte multicodec varint (16512) in front of an Ed25519, a P-256 and an empty body; every ASCII character as multibase prefix in front of a valid body; prefix mutations of 'did:key:'. Unsupported codes, non-base58btc multibases and wrong prefixes must be rejected; whatever parses must print back identically and PubKey must return a key or an error without panicking, canonically; non-trivial = parser accepts",
-		Bound: func(t string) string { return fmt.Sprintf("base58 strings of length <=%d; 16512 codes x 3 bodies; 128 multibase prefixes; 40 prefix mutations", tierN(t, 3, 4)) },
+		Rule:   "strings offered to did.Parse: every base58 string up to the length bound after 'did:key:z'; every 1- and 2-byte multicodec varint (16512) in front of an Ed25519, a P-256 and an empty body; every ASCII character as multibase prefix in front of a valid body; prefix mutations of 'did:key:'. Unsupported codes, non-base58btc multibases and wrong prefixes must be rejected; whatever parses must print back identically and PubKey must return a key or an error without panicking, canonically; non-trivial = parser accepts",
+		Bound: func(t string) string {
+			return fmt.Sprintf("base58 strings of length <=%d; 16512 codes x 3 bodies; 128 multibase prefixes; 40 prefix mutations", tierN(t, 3, 4))
+		},
 		Gen: func(tier string, emit func(any) bool) {
 			alpha := strings.Split(b58Alphabet, "")
 			ok := true
@@ -541,7 +543,9 @@ func c16CoercedSub() *engine.Sub {
 	return &engine.Sub{
 		Name: "ecdsa-typed-secp256k1-keys",
 		Rule: "public keys k*G on secp256k1 held as libp2p ECDSA keys (the type crypto.GenerateECDSAKeyPairWithCurve(secp256k1.S256()) produces) for small scalars and for the first scalars whose X, respectively Y, coordinate starts with a zero byte: FromPubKey succeeds, the DID is the canonical secp256k1 did:key of the point, it parses back and yields an equal point; non-trivial = all",
-		Bound: func(string) string { return "6 deterministic points incl. one with a short X and one with a short Y coordinate" },
+		Bound: func(string) string {
+			return "6 deterministic points incl. one with a short X and one with a short Y coordinate"
+		},
 		Gen: func(tier string, emit func(any) bool) {
 			for _, c := range coercedScalars() {
 				c := c
@@ -620,8 +624,8 @@ func syntheticRsaPub(bits, e int) (crypto.PubKey, []byte, error) {
 
 func c16RsaSub() *engine.Sub {
 	return &engine.Sub{
-		Name: "rsa-keys-of-every-size",
-		Rule: "RSA public keys with a modulus of 2048, 2056, 3072, 4096, 6144, 8184 and 8192 bits (libp2p accepts 2048..8192) and exponents 3 and 65537, built from a synthetic modulus: FromPubKey -> String (= independently computed did:key of the PKCS#1 encoding) -> Parse -> equal DID -> PubKey -> Equals(original) -> ToPubKey; identifiers of up to ~1.5 k characters; non-trivial = all",
+		Name:  "rsa-keys-of-every-size",
+		Rule:  "RSA public keys with a modulus of 2048, 2056, 3072, 4096, 6144, 8184 and 8192 bits (libp2p accepts 2048..8192) and exponents 3 and 65537, built from a synthetic modulus: FromPubKey -> String (= independently computed did:key of the PKCS#1 encoding) -> Parse -> equal DID -> PubKey -> Equals(original) -> ToPubKey; identifiers of up to ~1.5 k characters; non-trivial = all",
 		Bound: func(string) string { return "7 modulus sizes x 2 exponents" },
 		Gen: func(tier string, emit func(any) bool) {
 			for _, bits := range []int{2048, 2056, 3072, 4096, 6144, 8184, 8192} {
@@ -690,8 +694,8 @@ type c16KeptCase struct {
 
 func c16KeptSub() *engine.Sub {
 	return &engine.Sub{
-		Name: "extracted-keys-are-kept-intact",
-		Rule: "every ordered pair of fixture DIDs (A, B): extract A's public key with PubKey() and with ToPubKey and keep them, then resolve B twice (PubKey, ToPubKey), then look at the kept keys: they still equal A's original key, their raw bytes are unchanged and they still verify a signature made with A's private key; non-trivial = A != B",
+		Name:  "extracted-keys-are-kept-intact",
+		Rule:  "every ordered pair of fixture DIDs (A, B): extract A's public key with PubKey() and with ToPubKey and keep them, then resolve B twice (PubKey, ToPubKey), then look at the kept keys: they still equal A's original key, their raw bytes are unchanged and they still verify a signature made with A's private key; non-trivial = A != B",
 		Bound: func(string) string { return "16 x 16 ordered pairs of fixture keys (7 algorithm/size classes)" },
 		Gen: func(tier string, emit func(any) bool) {
 			n := len(fixtures.All())
